@@ -92,26 +92,30 @@ def r1_interval(ctx):
               init, cand[0] if cand else init.node, "candidates = all given keys (zero and non-zero)", "", "candidate set is not taken from the full input interval")
 
 
-@shape_rule
 def r2_combine(ctx):
     prog = ctx.prog
     f = prog.find_func("combine_preference_intervals")
     ivs, props = f.params[:2]
-    comps = [n for n in astx.walk_own(f.node) if isinstance(n, ast.DictComp)]
+    # the combined supports: the `interval=` argument of the result's constructor, however that dictionary is built
+    from vk import listform
+    ctor = [c for c in astx.calls_in(f.node, "PreferenceInterval") if any(k.arg == "interval" for k in c.keywords)]
+    db = listform.dict_build_of(f.node, next(k.value for k in ctor[0].keywords if k.arg == "interval")) if len(ctor) == 1 else None
+    comps = [db.node] if db is not None else []
     good = False
     d = ""
-    if len(comps) == 1 and len(comps[0].generators) == 2:
-        c = comps[0]
-        g0, g1 = c.generators
-        d = astx.u(c)[:140]
-        if isinstance(g0.target, ast.Tuple) and isinstance(g1.target, ast.Tuple):
-            pi, prop = [astx.u(x) for x in g0.target.elts]
-            key, val = [astx.u(x) for x in g1.target.elts]
+    if db is not None and len(db.loops) == 2:
+        (t0, it0), (t1, it1) = db.loops
+        d = astx.u(db.node)[:140]
+        m0 = re.fullmatch(r"\((\w+), (\w+)\)", t0)
+        m1 = re.fullmatch(r"\((\w+), (\w+)\)", t1)
+        if m0 and m1:
+            pi, prop = m0.groups()
+            key, val = m1.groups()
             try:
-                okv = Normalizer(f.node, inline=False).rat(c.value).equals(spec_rat(f"{val} * {prop}"))
+                okv = Normalizer(f.node, inline=False).rat(db.value).equals(spec_rat(f"{val} * {prop}"))
             except NotClosedForm:
                 okv = False
-            good = astx.u(g0.iter) == f"zip({ivs}, {props})" and astx.u(g1.iter) == f"{pi}.interval.items()" and astx.u(c.key) == key and okv and not g0.ifs and not g1.ifs
+            good = astx.u(it0) == f"zip({ivs}, {props})" and astx.u(it1) == f"{pi}.interval.items()" and astx.u(db.key) == key and okv and not db.conditional
     ctx.check(good, f, comps[0] if comps else f.node, "combined support = support * proportion of its own interval (zip of the two lists)", d, f"combination is `{d}`")
     upd = [n for n in astx.walk_own(f.node) if isinstance(n, ast.Assign) and astx.u(n.targets[0]).endswith(".zero_cands")]
     good = False
@@ -126,11 +130,10 @@ def r2_combine(ctx):
     ctx.check(good, f, upd[0] if upd else f.node, "zero-support candidates of every interval are carried along (union)", "", "zero-candidate union changed")
     rets = [n for n in astx.walk_own(f.node) if isinstance(n, ast.Return)]
     pi_def = astx.unique_def(f.node, astx.u(rets[0].value)) if rets and isinstance(rets[0].value, ast.Name) else None
-    ctx.check(pi_def is not None and astx.call_name(pi_def) == "PreferenceInterval" and pi_def.keywords and any(x is comps[0] for x in ast.walk(pi_def)) if comps else False, f, f.node,
+    ctx.check(pi_def is not None and len(ctor) == 1 and pi_def is ctor[0] and db is not None, f, f.node,
               "the result is a PreferenceInterval of the combined supports (renormalised by its constructor)", "", "result construction changed")
 
 
-@shape_rule
 def r3_name_bt(ctx):
     prog = ctx.prog
     f = prog.find_func("name_BradleyTerry._make_pow")
@@ -141,7 +144,16 @@ def r3_name_bt(ctx):
     if len(augs) == 1 and isinstance(augs[0].op, ast.Mult):
         a = augs[0]
         lp = astx.enclosing(a, pm, ast.For)
-        if lp is not None and astx.call_name(lp.iter) == "enumerate" and astx.u(lp.iter.args[0]) == f.params[1]:
+        zipped = lp is not None and astx.call_name(lp.iter) == "zip" and len(lp.iter.args) == 2 and astx.call_name(lp.iter.args[0]) == "range" \
+            and len(lp.iter.args[0].args) == 1 and astx.u(lp.iter.args[1]) == f.params[1] and isinstance(lp.target, ast.Tuple)
+        if zipped:
+            # for i, val in zip(range(K), lst): positions 0..K-1; K must not exceed m - 1 + 1 (the skipped tail has exponent 0)
+            Nz = Normalizer(f.node, inline=True, int_atoms=lambda x: True, rename=lambda e: "M" if astx.u(e) == f"len({f.params[1]})" else None)
+            try:
+                zipped = Nz.rat(lp.iter.args[0].args[0]).equals(spec_rat("M - 1")) or Nz.rat(lp.iter.args[0].args[0]).equals(spec_rat("M"))
+            except NotClosedForm:
+                zipped = False
+        if lp is not None and ((astx.call_name(lp.iter) == "enumerate" and astx.u(lp.iter.args[0]) == f.params[1]) or zipped):
             i, val = [astx.u(x) for x in lp.target.elts]
             v = a.value
             d = astx.u(v)
@@ -184,7 +196,6 @@ def r3_name_bt(ctx):
               tb[0] if tb else init.node, "one BT table per bloc from that bloc's combined interval", "", "pdfs_by_bloc wiring changed")
 
 
-@shape_rule
 def r4_slate_bt(ctx):
     prog = ctx.prog
     f = prog.find_func("slate_BradleyTerry._compute_ballot_type_dist")
@@ -228,17 +239,22 @@ def r4_slate_bt(ctx):
         astx.u(bts.generators[1].iter) == f"range(len(self.pref_intervals_by_bloc[{bloc}][{astx.u(bts.generators[0].target)}].non_zero_cands))" \
         and astx.u(bts.elt) == astx.u(bts.generators[0].target)
     ctx.check(good, f, bts or f.node, "a type lists each slate as many times as it has supported candidates", "", "blocs_to_sample changed")
-    comps = [n for n in astx.walk_own(f.node) if isinstance(n, ast.DictComp)]
+    from vk import listform
     good = False
-    if len(comps) == 2:
-        t, nrm = comps
-        g = t.generators[0]
-        good = astx.u(g.iter) in ("set(it.permutations(blocs_to_sample, len(blocs_to_sample)))", "set(it.permutations(blocs_to_sample))") \
-            and astx.u(t.value) == f"prob_of_type({astx.u(g.target)})" and astx.u(t.key) == astx.u(g.target)
-        summ = astx.unique_def(f.node, "summ")
+    summ = astx.unique_def(f.node, "summ")
+    tname = None
+    if summ is not None and isinstance(summ, ast.Call) and astx.u(summ.func) == "sum" and summ.args and isinstance(summ.args[0], ast.Call) and astx.u(summ.args[0].func).endswith(".values"):
+        tname = astx.u(summ.args[0].func.value)
+    t = listform.dict_build_of(f.node, ast.Name(id=tname, ctx=ast.Load())) if tname else None
+    nrms = [n for n in astx.walk_own(f.node) if isinstance(n, ast.DictComp) and astx.u(n.generators[0].iter) == f"{tname}.items()"]
+    if t is not None and len(t.loops) == 1 and len(nrms) == 1:
+        tv, tit = t.loops[0]
+        nrm = nrms[0]
+        good = astx.u(tit) in (astx.A("set(it.permutations(blocs_to_sample, len(blocs_to_sample)))"),) and not t.conditional \
+            and astx.u(t.value) == f"prob_of_type({tv})" and astx.u(t.key) == tv
         g2 = nrm.generators[0]
         k2, v2 = [astx.u(x) for x in g2.target.elts]
-        good = good and summ is not None and astx.u(summ) == "sum(pdf.values())" and astx.u(g2.iter) == "pdf.items()" and astx.u(nrm.value) == f"{v2} / summ" and astx.u(nrm.key) == k2
+        good = good and astx.u(nrm.value) == f"{v2} / summ" and astx.u(nrm.key) == k2 and not g2.ifs
     ctx.check(good, f, f.node, "slate-BT table: distinct orderings -> type weight, divided by the total", "", "slate-BT table construction changed")
     init = prog.find_func("slate_BradleyTerry.__init__")
     tb = [n for n in astx.walk_own(init.node) if isinstance(n, ast.DictComp) and "_compute_ballot_type_dist" in astx.u(n)]
